@@ -71,6 +71,16 @@ def modify(atoms, mod):
     if mod.get("serial_shift"):
         for a in out:
             a["serial"] += mod["serial_shift"]
+    if mod.get("serial_top") and not mod.get("serial_shift"):
+        # the largest atom id sits exactly on / one above the width of the serial column
+        d = mod["serial_top"] - max(a["serial"] for a in out)
+        if min(a["serial"] for a in out) + d >= 1:
+            for a in out:
+                a["serial"] += d
+    if mod.get("number_top") and not mod.get("number_shift"):
+        d = mod["number_top"] - max(a["resseq"] for a in out)
+        for a in out:
+            a["resseq"] += d
     if mod.get("later_models_shift"):
         # ensembles whose atom ids / residue numbers run on from model to model: only the later models exceed a limit
         first = min(a["model"] for a in out)
@@ -508,6 +518,8 @@ def st_cases():
         "long_chains": st.sampled_from(["", "", "A", "x1", "LONG"]),
         "number_shift": st.sampled_from([0, 0, 10000, 99000]),
         "serial_shift": st.sampled_from([0, 0, 100000, 12345678]),
+        "serial_top": st.sampled_from([0, 0, 0, 99999, 100000]),
+        "number_top": st.sampled_from([0, 0, 0, 9999, 10000]),
         "interleave": st.booleans(),
         "long_only": st.sampled_from([0, 0, 1, 2]),
         "model_chains": st.sampled_from([False, False, True]),
@@ -527,6 +539,8 @@ def st_unifier_cases():
         "long_chains": st.sampled_from(["", "A", "x1", "LONG"]),
         "number_shift": st.sampled_from([0, 0, 10000, 99000]),
         "serial_shift": st.sampled_from([0, 0, 100000]),
+        "serial_top": st.sampled_from([0, 0, 99999, 100000]),
+        "number_top": st.sampled_from([0, 0, 9999, 10000]),
         "long_only": st.sampled_from([0, 0, 1, 2]),
     })
     return st.fixed_dictionaries({"atoms": atomtab.st_tables(max_models=1, max_chains=3, max_residues=4, altlocs=False, hetero=False,
